@@ -123,3 +123,11 @@ Example runtime_checker_rejects :
   RtProg.acheck_prog [RtProg.ILoad 0; RtProg.IRet 0] = false /\
   RtProg.acheck_prog [RtProg.ILoad 0; RtProg.IIf false 0 [RtProg.IDetect 0; RtProg.IStore 0] []; RtProg.IRet 0] = false.
 Proof. repeat split; vm_compute; reflexivity. Qed.
+
+(* ---- the scanner loop shells and SWAR helpers translated from /repo/src/simd/*.rs on this run are the ones
+   `Backends.env_of` is built from (Proofs/TieLoops.v, TieSwarFns.v): a rewritten loop shell breaks this obligation of
+   this property too ---- *)
+From HV.Proofs Require TieLoops TieSwarFns.
+Theorem loop_shells_of_this_run : TieLoops.loop_shells_tied.
+Proof. exact TieLoops.loop_shells_tied_pf. Qed.
+Print Assumptions loop_shells_of_this_run.
